@@ -67,7 +67,13 @@ func init() {
 		fs := flag.NewFlagSet("c08", flag.ExitOnError)
 		dump := fs.Bool("regexes", false, "dump the registered matchers")
 		extra := fs.String("types", "", "comma separated dynamic type names to create first")
+		ranges := fs.String("ranges", "", "linear quantizer ranges to load first: <index>,<file>[,<index>,<file>...]")
 		fs.Parse(args)
+		if *ranges != "" {
+			if err := bmnumbers.LoadLinearDataRangesFromFile(*ranges); err != nil {
+				panic(err)
+			}
+		}
 		if *extra != "" {
 			for _, t := range splitComma(*extra) {
 				bmnumbers.EventuallyCreateType(t, nil)
